@@ -112,7 +112,7 @@ func checkSend(c sendCase) []vf.Finding {
 func TestSendAllSmallLengths(t *testing.T) {
 	s := vf.Begin(t, P, "send-frame-exhaustive")
 	s.SetExhaustive()
-	s.Note("payload lengths 0..2048 and every length within 3 of 0xFFFF, 0x10000, 0x1FFFF, 0x20000, plus 200000 and 1<<20")
+	s.Note("payload lengths 0..2048 and every length within 3 of 0xFFFF, 0x10000, 0x1FFFF, 0x20000, plus 200000, 1<<18 .. 1<<25 and the lengths around 1<<18, 1<<20, 1<<24 plus 0x1FFFF")
 	vf.Enum(s, func(yield func(sendCase)) {
 		for n := 0; n <= 2048; n++ {
 			yield(sendCase{n, byte(n)})
@@ -123,7 +123,18 @@ func TestSendAllSmallLengths(t *testing.T) {
 			}
 		}
 		yield(sendCase{200000, 1})
-		yield(sendCase{1 << 20, 2})
+		// far beyond the field: every power of two up to 32 MiB (a length whose bits 17.. are looked at
+		// through a narrower type reads as small again), the first and the last length of the 128 KiB
+		// window above some of them, and one below
+		for sh := 18; sh <= 25; sh++ {
+			yield(sendCase{1 << sh, byte(sh)})
+		}
+		for _, sh := range []int{18, 20, 24} {
+			yield(sendCase{1<<sh + 1, 3})
+			yield(sendCase{1<<sh + maxFrame, 4})
+			yield(sendCase{1<<sh + maxFrame + 1, 5})
+		}
+		yield(sendCase{1<<24 - 1, 6})
 	}, checkSend, func(c sendCase) bool { return c.Len >= 1 })
 }
 
@@ -639,4 +650,566 @@ func TestConcurrentSenders(t *testing.T) {
 		}
 		return c
 	}, checkConcurrentSenders, func(c concCase) bool { return c.Senders >= 2 && c.Rounds >= 3 })
+}
+
+// ---- packets that are not session messages ---------------------------------------------------------
+//
+// RFC 1002 4.3 knows five more session packet types (0x81 request, 0x82 positive, 0x83 negative,
+// 0x84 retarget response, 0x85 keep-alive). A peer may put them between session messages. Whether
+// Receive refuses such a packet with an error or skips it is the transport's choice; what it must not
+// do is hand the caller a payload that the peer did not send as a message: the packet's own bytes,
+// an empty message for a keep-alive, or whatever follows when the packet was not consumed properly.
+// After a Receive that returned an error nothing further is judged (where the stream stands then is
+// not the property's business).
+
+type ctrlPkt struct {
+	Before int  `json:"before_frame"` // stands before message frame Before; len(frame_lens) = after the last
+	Type   byte `json:"type"`
+	Len    int  `json:"payload_len"`
+}
+
+type mixedCase struct {
+	Lens []int     `json:"frame_lens"`
+	Ctrl []ctrlPkt `json:"other_packets"` // in stream order
+	Segs []int     `json:"segment_sizes"`
+	Salt byte      `json:"salt"`
+}
+
+// ctrlNatural: the payload RFC 1002 gives each packet type (4.3.2 .. 4.3.6).
+var ctrlNatural = map[byte]int{0x81: 68, 0x82: 0, 0x83: 1, 0x84: 6, 0x85: 0}
+
+type streamItem struct {
+	msg     bool
+	payload []byte
+	typ     byte
+}
+
+func (c mixedCase) items() (items []streamItem, stream []byte) {
+	k := 0
+	emitCtrl := func(upto int) {
+		for ; k < len(c.Ctrl) && c.Ctrl[k].Before <= upto; k++ {
+			p := payload(c.Ctrl[k].Len, c.Salt+0x80+byte(k))
+			items = append(items, streamItem{false, p, c.Ctrl[k].Type})
+			n := len(p)
+			stream = append(stream, c.Ctrl[k].Type, byte(n>>16)&1, byte(n>>8), byte(n))
+			stream = append(stream, p...)
+		}
+	}
+	for i, n := range c.Lens {
+		emitCtrl(i)
+		p := payload(n, c.Salt+byte(i))
+		items = append(items, streamItem{true, p, 0})
+		stream = append(stream, refFrame(p)...)
+	}
+	emitCtrl(len(c.Lens))
+	return
+}
+
+func checkMixed(c mixedCase) []vf.Finding {
+	items, stream := c.items()
+	var segs [][]byte
+	rest := stream
+	for _, sz := range c.Segs {
+		sz = min(sz, len(rest))
+		segs = append(segs, rest[:sz])
+		rest = rest[sz:]
+	}
+	segs = append(segs, rest)
+	tr := nbt.NewNBTTransportFromConn(&scriptConn{segs: segs})
+	var held, want [][]byte
+	// one Receive per item and one more: a transport that skips needs fewer calls, none needs more
+	for i, calls := 0, 0; calls <= len(items); calls++ {
+		// the next message, and whether other packets stand before it
+		m := i
+		for m < len(items) && !items[m].msg {
+			m++
+		}
+		got, err := tr.Receive()
+		if err != nil {
+			if m == i && m < len(items) {
+				return []vf.Finding{vf.F("NBTTransport.Receive", "complete-frame-not-delivered", "item %d of the stream, a session message of %d bytes with nothing but session messages delivered before it: %v", i, len(items[m].payload), err)}
+			}
+			// refused a packet that is not a message, or the end of the stream: nothing more to judge
+			return stillIntact(held, want)
+		}
+		what := "at the end of the stream"
+		if m > i {
+			what = fmt.Sprintf("after a packet of type %#x with %d payload bytes", items[i].typ, len(items[i].payload))
+		}
+		if m == len(items) {
+			kind := "message-fabricated-after-end-of-stream"
+			if m > i {
+				kind = "non-message-packet-delivered-as-message"
+			}
+			return []vf.Finding{vf.F("NBTTransport.Receive", kind, "got a message of %d bytes and no error %s; every message the peer sent has been delivered already", len(got), what)}
+		}
+		if !bytes.Equal(got, items[m].payload) {
+			kind := "payload-differs"
+			if m > i {
+				kind = "non-message-packet-delivered-as-message"
+			}
+			return []vf.Finding{vf.F("NBTTransport.Receive", kind, "got a message of %d bytes %.16x and no error %s; the next message the peer sent has %d bytes", len(got), got, what, len(items[m].payload))}
+		}
+		held, want = append(held, got), append(want, items[m].payload)
+		i = m + 1
+	}
+	return []vf.Finding{vf.F("NBTTransport.Receive", "message-fabricated-after-end-of-stream", "%d calls on a stream of %d packets all returned without error", len(items)+1, len(items))}
+}
+
+func TestReceiveOtherPacketTypes(t *testing.T) {
+	s := vf.Begin(t, P, "receive-non-message-packets")
+	vf.Rapid(s, vf.N(4000, 50000), func(t *rapid.T) mixedCase {
+		c := mixedCase{Salt: rapid.Byte().Draw(t, "salt")}
+		total := 0
+		for i, n := 0, rapid.IntRange(0, 4).Draw(t, "frames"); i < n; i++ {
+			l := rapid.IntRange(0, 40).Draw(t, "len")
+			if rapid.IntRange(0, 7).Draw(t, "lenClass") == 0 {
+				l = genLen(t)
+			}
+			c.Lens = append(c.Lens, l)
+			total += 4 + l
+		}
+		at := 0
+		for i, n := 0, rapid.IntRange(1, 4).Draw(t, "others"); i < n; i++ {
+			at = rapid.IntRange(at, len(c.Lens)).Draw(t, "before")
+			k := ctrlPkt{Before: at, Type: byte(rapid.IntRange(0x81, 0x85).Draw(t, "type"))}
+			k.Len = ctrlNatural[k.Type]
+			// one in ten: a type RFC 1002 does not define, with a few bytes announced and carried. (The
+			// defined types always come with the payload the RFC gives them: what a transport makes of a
+			// keep-alive that announces a payload is not judged.)
+			if rapid.IntRange(0, 9).Draw(t, "otherClass") == 0 {
+				k.Type = byte(rapid.IntRange(1, 255).Draw(t, "anyType"))
+				if n, defined := ctrlNatural[k.Type]; defined {
+					k.Len = n
+				} else {
+					k.Len = rapid.IntRange(0, 8).Draw(t, "anyLen")
+				}
+			}
+			c.Ctrl = append(c.Ctrl, k)
+			total += 4 + k.Len
+		}
+		for i, n := 0, rapid.IntRange(0, 4).Draw(t, "nsegs"); i < n; i++ {
+			c.Segs = append(c.Segs, rapid.IntRange(0, min(total, 100)).Draw(t, "seg"))
+		}
+		return c
+	}, func(c mixedCase) []vf.Finding {
+		for _, k := range c.Ctrl {
+			if _, defined := ctrlNatural[k.Type]; defined {
+				s.Class(fmt.Sprintf("packet-type-%#x", k.Type))
+			} else {
+				s.Class("packet-type-undefined")
+			}
+			if k.Before < len(c.Lens) {
+				s.Class("other-packet-before-a-message")
+			}
+		}
+		return checkMixed(c)
+	}, func(c mixedCase) bool { return len(c.Lens) >= 1 })
+}
+
+// ---- full duplex: a Send while a Receive is waiting, and the other way round ---------------------
+//
+// A session is used in both directions at once (SMB: a client waits for an oplock break or a reply
+// while it sends the next request; the quantifier ranges over schedules). A Receive that is waiting
+// for the peer must not keep a Send on the same transport from putting its frame on the wire, nor a
+// Send that is waiting for the peer to read keep a Receive from delivering what has arrived.
+
+// gateConn reports every Read and Write call before handing it to the connection it wraps.
+type gateConn struct {
+	net.Conn
+	reading, writing chan struct{}
+}
+
+func (c *gateConn) Read(p []byte) (int, error) {
+	select {
+	case c.reading <- struct{}{}:
+	default:
+	}
+	return c.Conn.Read(p)
+}
+
+func (c *gateConn) Write(p []byte) (int, error) {
+	select {
+	case c.writing <- struct{}{}:
+	default:
+	}
+	return c.Conn.Write(p)
+}
+
+type duplexCase struct {
+	Pipe        bool  `json:"net_pipe"` // net.Pipe instead of loopback TCP
+	Out         []int `json:"sent_lengths"`
+	In          []int `json:"received_lengths"` // one per round, cyclically
+	SendPending bool  `json:"receive_issued_while_send_waits"`
+}
+
+// stallLimit: how long a call that needs microseconds may take before it counts as blocked.
+const stallLimit = 20 * time.Second
+
+func connPair(pipe bool) (a, b net.Conn, fs []vf.Finding) {
+	if pipe {
+		a, b = net.Pipe()
+		return
+	}
+	ln, err := net.Listen("tcp", "127.0.0.1:0")
+	if err != nil {
+		return nil, nil, []vf.Finding{vf.F("harness", "cannot-listen", "%v", err)}
+	}
+	defer ln.Close()
+	acc := make(chan net.Conn, 1)
+	go func() {
+		conn, _ := ln.Accept()
+		acc <- conn
+	}()
+	a, err = net.Dial("tcp", ln.Addr().String())
+	if err != nil {
+		return nil, nil, []vf.Finding{vf.F("harness", "cannot-connect", "%v", err)}
+	}
+	if b = <-acc; b == nil {
+		a.Close()
+		return nil, nil, []vf.Finding{vf.F("harness", "cannot-accept", "")}
+	}
+	return
+}
+
+// scheduleWait: how long the harness waits to see the first call enter the connection before it issues
+// the second one. Not a verdict: a transport that reads or writes from a goroutine of its own is never
+// seen, and the case then runs with whatever overlap the scheduler gives it (class *-not-seen-*).
+const scheduleWait = 300 * time.Millisecond
+
+func checkDuplex(s *vf.Sub, c duplexCase) []vf.Finding {
+	observe := func(ch chan struct{}, class string) {
+		select {
+		case <-ch:
+		case <-time.After(scheduleWait):
+			s.Class(class)
+		}
+	}
+	a, b, fs := connPair(c.Pipe)
+	if fs != nil {
+		return fs
+	}
+	defer a.Close()
+	defer b.Close()
+	ga := &gateConn{Conn: a, reading: make(chan struct{}, 1), writing: make(chan struct{}, 1)}
+	tr := nbt.NewNBTTransportFromConn(ga)
+	type res struct {
+		got []byte
+		err error
+	}
+	for round, n := range c.Out {
+		out, in := payload(n, byte(round)), payload(c.In[round%len(c.In)], byte(round)+0x40)
+		recvd, sent := make(chan res, 1), make(chan error, 1)
+		receive := func() {
+			got, err := tr.Receive()
+			recvd <- res{got, err}
+		}
+		send := func() {
+			_, err := tr.Send(append([]byte{}, out...))
+			sent <- err
+		}
+		drain := func(ch chan struct{}) {
+			select {
+			case <-ch:
+			default:
+			}
+		}
+		if !c.SendPending || !c.Pipe {
+			// the transport waits in Receive (the peer has sent nothing yet) ...
+			drain(ga.reading)
+			go receive()
+			observe(ga.reading, "receive-not-seen-reading")
+			// ... a Send is issued on it: the peer must get the frame
+			go send()
+			frame := make([]byte, 4+len(out))
+			b.SetReadDeadline(time.Now().Add(stallLimit))
+			if _, err := io.ReadFull(b, frame); err != nil {
+				return []vf.Finding{vf.F("NBTTransport.Send", "send-blocked-by-pending-receive", "round %d: a Receive was waiting for the peer when Send(%d bytes) was called on the same transport; the peer did not get the frame within %v: %v", round, len(out), stallLimit, err)}
+			}
+			if !bytes.Equal(frame, refFrame(out)) {
+				return []vf.Finding{vf.F("NBTTransport.Send", "frame-differs-from-rfc1002", "round %d: sent during a pending Receive: header %x want %x", round, frame[:4], refFrame(out)[:4])}
+			}
+			select {
+			case err := <-sent:
+				if err != nil {
+					return []vf.Finding{vf.F("NBTTransport.Send", "frameable-payload-refused", "round %d, len %d, during a pending Receive: %v", round, len(out), err)}
+				}
+			case <-time.After(stallLimit):
+				return []vf.Finding{vf.F("NBTTransport.Send", "send-blocked-by-pending-receive", "round %d: the peer has read the frame of %d bytes, Send has not returned after %v", round, len(out), stallLimit)}
+			}
+			// the peer answers: the Receive that was waiting all along delivers it
+			b.SetWriteDeadline(time.Now().Add(stallLimit))
+			if _, err := b.Write(refFrame(in)); err != nil {
+				return []vf.Finding{vf.F("harness", "peer-cannot-write", "%v", err)}
+			}
+		} else {
+			// net.Pipe: a Send waits until the peer reads. While it waits, a message from the peer
+			// arrives and a Receive is issued for it: it must be delivered before the peer reads.
+			drain(ga.writing)
+			go send()
+			observe(ga.writing, "send-not-seen-writing")
+			go receive()
+			b.SetWriteDeadline(time.Now().Add(stallLimit))
+			if _, err := b.Write(refFrame(in)); err != nil {
+				return []vf.Finding{vf.F("NBTTransport.Receive", "receive-blocked-by-pending-send", "round %d: a Send was waiting for the peer to read when a message of %d bytes arrived and Receive was called on the same transport; the message was not taken within %v: %v", round, len(in), stallLimit, err)}
+			}
+		}
+		var r res
+		select {
+		case r = <-recvd:
+		case <-time.After(stallLimit):
+			return []vf.Finding{vf.F("NBTTransport.Receive", "receive-blocked-by-pending-send", "round %d: the peer has written its message of %d bytes, Receive has not returned after %v", round, len(in), stallLimit)}
+		}
+		if r.err != nil || !bytes.Equal(r.got, in) {
+			return []vf.Finding{vf.F("NBTTransport.Receive", "payload-differs", "round %d: peer sent %d bytes, got %d (err %v)", round, len(in), len(r.got), r.err)}
+		}
+		if c.SendPending && c.Pipe {
+			// now the peer reads what the waiting Send has been trying to write
+			frame := make([]byte, 4+len(out))
+			b.SetReadDeadline(time.Now().Add(stallLimit))
+			if _, err := io.ReadFull(b, frame); err != nil || !bytes.Equal(frame, refFrame(out)) {
+				return []vf.Finding{vf.F("NBTTransport.Send", "frame-differs-from-rfc1002", "round %d: frame of a Send that waited through a Receive: %v, header %x want %x", round, err, frame[:4], refFrame(out)[:4])}
+			}
+			select {
+			case err := <-sent:
+				if err != nil {
+					return []vf.Finding{vf.F("NBTTransport.Send", "frameable-payload-refused", "round %d, len %d: %v", round, len(out), err)}
+				}
+			case <-time.After(stallLimit):
+				return []vf.Finding{vf.F("NBTTransport.Send", "send-blocked-by-pending-receive", "round %d: the peer has read the frame, Send has not returned after %v", round, stallLimit)}
+			}
+		}
+	}
+	return nil
+}
+
+func TestFullDuplex(t *testing.T) {
+	s := vf.Begin(t, P, "full-duplex")
+	vf.Rapid(s, vf.N(150, 1500), func(t *rapid.T) duplexCase {
+		c := duplexCase{Pipe: rapid.Bool().Draw(t, "pipe"), SendPending: rapid.Bool().Draw(t, "sendPending")}
+		lens := func(label string, n int) (out []int) {
+			for i := 0; i < n; i++ {
+				l := rapid.IntRange(0, 300).Draw(t, label)
+				if rapid.IntRange(0, 5).Draw(t, "lenClass") == 0 {
+					l = rapid.SampledFrom([]int{0xFFFF, 0x10000, 70000, maxFrame}).Draw(t, "bigLen")
+				}
+				out = append(out, l)
+			}
+			return
+		}
+		c.Out = lens("out", rapid.IntRange(1, 6).Draw(t, "rounds"))
+		c.In = lens("in", rapid.IntRange(1, 3).Draw(t, "ins"))
+		return c
+	}, func(c duplexCase) []vf.Finding {
+		if c.SendPending && c.Pipe {
+			s.Class("receive-while-send-waits")
+		} else {
+			s.Class("send-while-receive-waits")
+		}
+		return checkDuplex(s, c)
+	}, func(c duplexCase) bool { return len(c.Out) >= 1 })
+}
+
+// ---- two transports in one process, their streams arriving interleaved -----------------------------
+//
+// A process holds several sessions (one per server, or per client for a listener). The segments of
+// two streams arrive in an arbitrary interleaving; what one transport has read so far - half a
+// header, part of a payload - must be its own. Each transport runs its Receive calls on a goroutine
+// of its own; the harness hands out the segments one at a time, the next one only when the transport
+// that got the last one has digested it (it asks for more, or has returned its last message).
+
+type stepConn struct {
+	scriptConn
+	asks chan struct{} // one token per Read call that has to wait for a segment
+	feed chan []byte   // closed = end of stream
+	eof  bool
+}
+
+func (c *stepConn) Read(p []byte) (int, error) {
+	for len(c.segs) > 0 && len(c.segs[0]) == 0 {
+		c.segs = c.segs[1:]
+	}
+	if len(c.segs) == 0 {
+		if c.eof {
+			return 0, io.EOF
+		}
+		c.asks <- struct{}{}
+		seg, ok := <-c.feed
+		if !ok {
+			c.eof = true
+			return 0, io.EOF
+		}
+		c.segs = append(c.segs, seg)
+	}
+	return c.scriptConn.Read(p)
+}
+
+type twoCase struct {
+	Lens  [2][]int `json:"frame_lens"`
+	Segs  [2][]int `json:"segment_sizes"` // the remainder of each stream forms its last segment
+	Order []int    `json:"order"`         // which stream the next segment is taken from (cyclically; a finished stream yields to the other)
+	Salt  byte     `json:"salt"`
+}
+
+func checkTwoTransports(c twoCase) []vf.Finding {
+	type side struct {
+		conn   *stepConn
+		frames [][]byte
+		segs   [][]byte
+		got    [][]byte
+		err    error
+		done   chan struct{}
+		asking bool
+		ended  bool
+		closed bool
+	}
+	var sides [2]*side
+	for x := 0; x < 2; x++ {
+		sd := &side{conn: &stepConn{asks: make(chan struct{}), feed: make(chan []byte)}, done: make(chan struct{})}
+		var stream []byte
+		for i, n := range c.Lens[x] {
+			p := payload(n, c.Salt+byte(16*x+i))
+			sd.frames = append(sd.frames, p)
+			stream = append(stream, refFrame(p)...)
+		}
+		rest := stream
+		for _, sz := range c.Segs[x] {
+			sz = min(max(sz, 1), len(rest))
+			if sz == 0 {
+				break
+			}
+			sd.segs = append(sd.segs, rest[:sz])
+			rest = rest[sz:]
+		}
+		if len(rest) > 0 {
+			sd.segs = append(sd.segs, rest)
+		}
+		sides[x] = sd
+		tr := nbt.NewNBTTransportFromConn(sd.conn)
+		go func() {
+			defer close(sd.done)
+			for range sd.frames {
+				m, err := tr.Receive()
+				if err != nil {
+					sd.err = err
+					return
+				}
+				sd.got = append(sd.got, m)
+			}
+		}()
+	}
+	// wait until side x asks for a segment or has ended
+	settle := func(sd *side) bool {
+		if sd.asking || sd.ended {
+			return true
+		}
+		select {
+		case <-sd.conn.asks:
+			sd.asking = true
+		case <-sd.done:
+			sd.ended = true
+		case <-time.After(stallLimit):
+			return false
+		}
+		return true
+	}
+	endStream := func(sd *side) {
+		if !sd.closed {
+			sd.closed = true
+			close(sd.conn.feed)
+		}
+	}
+	stuck := func(x int) []vf.Finding {
+		for _, sd := range sides {
+			endStream(sd)
+		}
+		return []vf.Finding{vf.F("NBTTransport.Receive", "receive-stalled", "transport %d neither asked for more bytes nor returned within %v", x, stallLimit)}
+	}
+	for k := 0; len(sides[0].segs)+len(sides[1].segs) > 0; k++ {
+		x := 0
+		if len(c.Order) > 0 {
+			x = c.Order[k%len(c.Order)] & 1
+		}
+		if len(sides[x].segs) == 0 {
+			x = 1 - x
+		}
+		sd := sides[x]
+		if !settle(sd) {
+			return stuck(x)
+		}
+		if sd.ended {
+			sd.segs = nil // it returned early (an error, or messages shorter than sent): judged below
+			continue
+		}
+		sd.conn.feed <- sd.segs[0]
+		sd.segs, sd.asking = sd.segs[1:], false
+		if !settle(sd) {
+			return stuck(x)
+		}
+	}
+	for x, sd := range sides {
+		if !settle(sd) {
+			return stuck(x)
+		}
+		endStream(sd)
+		if sd.asking {
+			// wants more than its stream holds: it gets the end of the stream and returns
+			sd.asking = false
+			select {
+			case <-sd.done:
+			case <-time.After(stallLimit):
+				return stuck(x)
+			}
+		}
+	}
+	var fs []vf.Finding
+	for x, sd := range sides {
+		for i, want := range sd.frames {
+			if i >= len(sd.got) {
+				fs = append(fs, vf.F("NBTTransport.Receive", "complete-frame-not-delivered", "transport %d of two receiving at the same time: message %d (%d bytes) not delivered: %v", x, i, len(want), sd.err))
+				break
+			}
+			if !bytes.Equal(sd.got[i], want) {
+				kind := "payload-differs"
+				if len(sd.got[i]) != len(want) {
+					kind = "payload-length-differs"
+				}
+				fs = append(fs, vf.F("NBTTransport.Receive", kind, "transport %d of two receiving at the same time: message %d: got %d bytes want %d (%#x)", x, i, len(sd.got[i]), len(want), len(want)))
+				break
+			}
+		}
+	}
+	return fs
+}
+
+func TestTwoTransports(t *testing.T) {
+	s := vf.Begin(t, P, "receive-two-transports-interleaved")
+	vf.Rapid(s, vf.N(2500, 30000), func(t *rapid.T) twoCase {
+		c := twoCase{Salt: rapid.Byte().Draw(t, "salt")}
+		for x := 0; x < 2; x++ {
+			total := 0
+			for i, n := 0, rapid.IntRange(1, 3).Draw(t, "frames"); i < n; i++ {
+				l := genLen(t)
+				c.Lens[x] = append(c.Lens[x], l)
+				total += 4 + l
+			}
+			for i, n := 0, rapid.IntRange(0, 5).Draw(t, "nsegs"); i < n; i++ {
+				switch rapid.IntRange(0, 2).Draw(t, "segClass") {
+				case 0, 1: // inside a header, or a few bytes
+					c.Segs[x] = append(c.Segs[x], rapid.IntRange(1, 5).Draw(t, "tiny"))
+				default:
+					c.Segs[x] = append(c.Segs[x], rapid.IntRange(1, total).Draw(t, "seg"))
+				}
+			}
+		}
+		c.Order = rapid.SliceOfN(rapid.IntRange(0, 1), 1, 8).Draw(t, "order")
+		return c
+	}, func(c twoCase) []vf.Finding {
+		for x := 0; x < 2; x++ {
+			if len(c.Segs[x]) > 0 && c.Segs[x][0] < 4 {
+				s.Class("first-header-split")
+			}
+		}
+		return checkTwoTransports(c)
+	}, func(c twoCase) bool { return len(c.Segs[0])+len(c.Segs[1]) >= 1 })
 }
